@@ -44,6 +44,11 @@ pub struct HttpState {
     pub next_id: u128,
     /// urgency header sent with accepted versions: 0 none, 1 low, 2 high
     pub urgency: u8,
+    /// when not empty: the urgency stated with the next accepted versions (front first); `urgency`
+    /// applies once it is used up
+    pub urgency_script: std::collections::VecDeque<u8>,
+    /// what was stated with every accepted version: (version id, urgency)
+    pub stated: Vec<(Uuid, u8)>,
     pub tamper: Tamper,
     pub protocol_errors: Vec<String>,
 }
@@ -64,6 +69,8 @@ impl HttpServer {
             recorded: vec![],
             next_id: 1,
             urgency: 0,
+            urgency_script: Default::default(),
+            stated: vec![],
             tamper: Tamper::None,
             protocol_errors: vec![],
         }));
@@ -173,12 +180,13 @@ fn serve(stream: TcpStream, state: Arc<Mutex<HttpState>>) -> std::io::Result<()>
                 content_type: ct,
             });
             let id = Uuid::from_u128(0x4771_0000_0000 + st.next_id);
-            let urgency = st.urgency;
             let chain = st.chains.entry(client).or_default();
             let latest = chain.versions.last().map(|v| v.0);
             if latest.is_none() || latest == Some(parent) {
                 chain.versions.push((id, parent, body));
                 st.next_id += 1;
+                let urgency = st.urgency_script.pop_front().unwrap_or(st.urgency);
+                st.stated.push((id, urgency));
                 drop(st);
                 let mut hs = vec![("X-Version-Id", id.to_string())];
                 match urgency {
